@@ -325,7 +325,7 @@ pub fn main(args: &Args) -> i32 {
     let mut ev = Evidence::new(args, "exploration");
     let js = runtime_js().unwrap_or_else(|e| machinery_error(&e));
     let (cases, pairs, viols_a) = part_a(&js);
-    let families = vec![Family { menu: Menu::General, k: args.tier.pick(3, 4) }, Family { menu: Menu::Args, k: args.tier.pick(3, 4) }, Family { menu: Menu::Pointers, k: args.tier.pick(3, 4) }];
+    let families = vec![Family { menu: Menu::General, k: args.tier.pick(3, 5) }, Family { menu: Menu::Args, k: args.tier.pick(3, 5) }, Family { menu: Menu::Pointers, k: args.tier.pick(3, 4) }];
     let res = sweep::run(args, families);
     let mut verdict = Verdict::new("C12");
     for v in viols_a.into_iter().chain(res.violations) {
